@@ -282,20 +282,82 @@ func c21Oracle(in string) eng.Res {
 	return eng.OK(fmt.Sprintf("mixed %s", dsl), false)
 }
 
+// c21Leaf renders one automatically sized root-level leaf on one line.
+func c21Leaf(name, label, shp, family, style, fsize string) string {
+	attrs := []string{"shape: " + shp}
+	if family != "-" {
+		attrs = append(attrs, "style.font: "+family)
+	}
+	if strings.Contains(style, "bold") {
+		attrs = append(attrs, "style.bold: true")
+	}
+	if strings.Contains(style, "italic") {
+		attrs = append(attrs, "style.italic: true")
+	}
+	if fsize != "-" {
+		attrs = append(attrs, "style.font-size: "+fsize)
+	}
+	return fmt.Sprintf("%s: %s {%s}", name, sizeLabels[label], strings.Join(attrs, "; "))
+}
+
+var c21Alone = map[string]d2target.Shape{}
+
+// c21CtxFree: the automatic size of a root-level leaf depends on its own label and text attributes only. The input
+// is a two-line program (leaves p and q with the SAME label text and different text attributes); each leaf must get
+// the box and the label measurement it gets when it is the only shape of the diagram. This is a differential oracle
+// for "sized to fit the label": a measurement remembered for one shape and reused for another (same text, other font
+// family / weight / size) makes the exported labelWidth itself wrong, which the text-area oracle has to trust.
+func c21CtxFree(in string) eng.Res {
+	lines := strings.Split(in, "\n")
+	if len(lines) != 2 {
+		return eng.Bad("harness:bad-pair", in)
+	}
+	d, _, err := layoutD2(in)
+	if err != nil {
+		return eng.Bad(errClass(err), err.Error()+"\n"+in)
+	}
+	got := map[string]d2target.Shape{}
+	for _, sh := range d.Shapes {
+		got[sh.ID] = sh
+	}
+	for i, l := range lines {
+		name := []string{"p", "q"}[i]
+		body := l[len(name):]
+		alone, ok := c21Alone[body]
+		if !ok {
+			if len(c21Alone) > 4096 {
+				c21Alone = map[string]d2target.Shape{}
+			}
+			d1, _, err := layoutD2("p" + body)
+			if err != nil {
+				return eng.Bad(errClass(err), err.Error()+"\np"+body)
+			}
+			alone = d1.Shapes[0]
+			c21Alone[body] = alone
+		}
+		g := got[name]
+		if g.Width != alone.Width || g.Height != alone.Height || g.LabelWidth != alone.LabelWidth || g.LabelHeight != alone.LabelHeight {
+			return eng.Bad("automatic-size-depends-on-another-shape:"+g.Type+":"+[]string{"first", "second"}[i]+"-of-two",
+				fmt.Sprintf("%s is %dx%d (label %dx%d) next to the other leaf but %dx%d (label %dx%d) alone\n%s", name, g.Width, g.Height, g.LabelWidth, g.LabelHeight, alone.Width, alone.Height, alone.LabelWidth, alone.LabelHeight, in))
+		}
+	}
+	return eng.OK(fmt.Sprintf("ctxfree %s %s", got["p"].Type, got["q"].Type), true)
+}
+
 func init() {
 	eng.Register(&eng.Check{
 		ID: "C21", Level: "exploration", HangBound: 120 * time.Second,
 		QuickBudget: 118 * time.Second, ThoroughBudget: 24 * time.Minute,
-		Rule: "every attribute combination (label in {1 char, 12 chars, 60 chars, 3 lines, 8 short lines, 9-line block, CJK, emoji (thorough)} x font-size x bold/italic x icon in {none, inside, outside-top-left} x (width,height) in D^2, D per phase, written on the shape or supplied through a class; plus the empty label) is rendered to a D2 program holding one root-level leaf of each of the 23 leaf shape keywords with those attributes, laid out through d2lib.Compile with dagre; each (combination, shape) pair is one evaluation on the exported shape; non-trivial = both dimensions explicit, or automatic size with an inside label",
+		Rule: "every attribute combination (label in {1 char, 12 chars, 60 chars, 3 lines, 8 short lines, 9-line block, CJK, emoji (thorough)} x font-size x bold/italic x icon in {none, inside, outside-top-left} x (width,height) in D^2, D per phase, written on the shape or supplied through a class; plus the empty label) is rendered to a D2 program holding one root-level leaf of each of the 23 leaf shape keywords with those attributes, laid out through d2lib.Compile with dagre; each (combination, shape) pair is one evaluation on the exported shape; plus every ordered pair of two root-level leaves with the same label (3 labels) and different (shape in {rectangle,text} (thorough + hexagon, cloud), font family in {default,mono}, plain/bold/italic, font-size in {-,40}), each leaf compared with the same leaf laid out alone; non-trivial = both dimensions explicit, or automatic size with an inside label",
 		Assumptions: []string{
 			"leaf shapes at the root of a dagre-laid-out board only (no grid, no sequence diagram, no containers, no near)",
 			"when only one of width/height is given the statement is silent: such cases are laid out but only checked for errors and positive size",
 			"'content' of sql_table/class/code = the size the same shape gets when asked for 1x1 (must itself cover the label); the explicit case must then equal max(explicit, content) per axis",
 			"'label drawn inside' = exported labelPosition starts with INSIDE; the text area is lib/shape GetInnerBox of the exported box (cloud: with the exported contentAspectRatio), compared with the exported label width/height",
 			"markdown/latex text blocks are not in the space (they never shrink below content like code, which the statement does not list)",
-			"text measurement is d2's own ruler (trusted); the check is about sizing given those measurements",
+			"text measurement is d2's own ruler (trusted); the check is about sizing given those measurements, and (pair phase) about each shape getting the measurement of ITS OWN text attributes",
 		},
-		Oracles: map[string]eng.Oracle{"size": c21Oracle},
+		Oracles: map[string]eng.Oracle{"size": c21Oracle, "ctxfree": c21CtxFree},
 		Run: func(w *eng.W) {
 			via := ""
 			run := func(name string, labels, fonts, styles, icons []string, dims [][2]int) {
@@ -360,6 +422,32 @@ func init() {
 				run("size through a class {1,37,200,1000}^2: labels(8+empty) x icons(3)", append([]string{"empty"}, sizeLabelOrder...), []string{"-", "32"}, []string{"plain"}, ti, sq(vals))
 				via = ""
 			}
+			w.Phase("two leaves, same label, different text attributes: each sized as when alone", func() {
+				type variant struct{ shp, family, style, fsize string }
+				var vs []variant
+				shapes := []string{d2target.ShapeRectangle, d2target.ShapeText}
+				if w.Thorough() {
+					shapes = append(shapes, d2target.ShapeHexagon, d2target.ShapeCloud)
+				}
+				for _, shp := range shapes {
+					for _, fam := range []string{"-", "mono"} {
+						for _, st := range []string{"plain", "bold", "italic"} {
+							for _, fs := range []string{"-", "40"} {
+								vs = append(vs, variant{shp, fam, st, fs})
+							}
+						}
+					}
+				}
+				for _, l := range []string{"x", "c60", "lines"} {
+					for i, a := range vs {
+						for j, b := range vs {
+							if i != j {
+								w.Eval("ctxfree", c21Leaf("p", l, a.shp, a.family, a.style, a.fsize)+"\n"+c21Leaf("q", l, b.shp, b.family, b.style, b.fsize))
+							}
+						}
+					}
+				}
+			})
 			w.Count("dagre_calls", int64(dagreCalls))
 		},
 	})
